@@ -166,9 +166,17 @@ def run(repo, chk):
                 if any(src(t) == 'self.stack' for t in tg):
                     n_assign += 1
                     v = src(n.value)
-                    paired = fname == 'eval_expr' and v in ('self.stack.add(static_array_size=static_size)',
-                                                            'self.stack.add(static_array_size=-static_size)')
-                    chk.expect(fname in movers or paired, 'C04.A1', f'{fname}::self.stack = {v[:50]}',
+                    # the paired static-size accounting around array-literal elements: +E and -E in the same function (the
+                    # literal arm of eval_expr, or a context manager / helper split off from it)
+                    m_ = re.fullmatch(r'self\.stack\.add\(static_array_size=(-?)(.+)\)', v)
+                    others = {src(x.value) for x in ast.walk(fn) if isinstance(x, ast.Assign) and any(src(t) == 'self.stack' for t in x.targets)}
+                    paired = bool(m_) and (fname == 'eval_expr' or f'{GEN}::CodeGen.{fname}' not in _roles()) and \
+                        f'self.stack.add(static_array_size={"" if m_.group(1) else "-"}{m_.group(2)})' in others
+                    # a release (`self.stack = b.prev`, the tail of pop written out or split off) moves the model down; that it
+                    # releases a live bubble, in order, is the typestate rule C08.L1
+                    release = isinstance(n, ast.Assign) and isinstance(n.value, ast.Attribute) and n.value.attr == 'prev' and \
+                        isinstance(n.value.value, ast.Name)
+                    chk.expect(fname in movers or paired or release, 'C04.A1', f'{fname}::self.stack = {v[:50]}',
                                'the frame model may only be moved by the allocator functions (or by the paired '
                                'static-size accounting around array-literal elements)', GEN, n.lineno)
     chk.floor('assignments to self.stack', n_assign, 6)
